@@ -22,6 +22,9 @@ type c04Params struct {
 	PerTick    int         `json:"per_tick"`
 	RunMS      int         `json:"run_ms"`
 	Desc       string      `json:"desc"`
+	// Huge: ticks of more than 2^31 requests with max-iterations = c; the run ends by its limit, the harness
+	// does not cancel it (a stop would have to report the 2^32 leftovers one by one)
+	Huge bool `json:"huge,omitempty"`
 }
 
 func init() {
@@ -73,6 +76,23 @@ func init() {
 				cse.TimeoutMS = 60000
 				cs = append(cs, cse)
 			}
+			// ticks far beyond 32 bits: every worker still gets its request
+			nhu := 3
+			if tier == "thorough" {
+				nhu = 12
+			}
+			for i := 0; i < nhu; i++ {
+				c := pick(r, 2, 8, 64)
+				tick := pick(r, 1<<32+3, 1<<31, 1<<33+1, 3<<40)
+				p := c04Params{Rendezvous: true, Body: "gated", PerTick: tick, Huge: true}
+				p.Spec = engine.Spec{Mode: "custom", CustomIntervalUS: 200000, CustomRates: []int{tick}, Concurrency: c, MaxDurationMS: 60000, MaxIterations: uint64(c), IgnoreDropped: true}
+				p.Desc = fmt.Sprintf("mode=custom c=%d perTick=%d (huge) max-iterations=%d rendezvous=true", c, tick, c)
+				cse := core.MkCase("C04", "run", 7000+i, seed, p)
+				cse.Race = i%2 == 0
+				cse.Procs = pick(r, 2, 16)
+				cse.TimeoutMS = 60000
+				cs = append(cs, cse)
+			}
 			nr := 12
 			if tier == "thorough" {
 				nr = 64
@@ -82,6 +102,10 @@ func init() {
 				if i%4 >= 2 {
 					// many ticks offering less than the number of idle workers between the rounds
 					rp.C, rp.Rounds, rp.Filler = pick(r, 8, 16, 64), 60, 1500
+				}
+				if i%6 == 4 {
+					// a few ticks of several times c (instant bodies) directly before each round of exactly c
+					rp.C, rp.Rounds, rp.Filler, rp.BigFiller = pick(r, 4, 8, 16), 150, 3, true
 				}
 				cse := core.MkCase("C04", "rounds", i, seed, rp)
 				cse.Race = i%4 == 3
@@ -164,6 +188,15 @@ func c04Run(c *core.Case, o *core.Outcome) {
 	if p.Rendezvous {
 		select {
 		case <-opened:
+			if p.Huge {
+				select {
+				case r = <-done:
+				case <-time.After(30 * time.Second):
+					o.Inconc("the run did not end by its limit within 30 s after the rendezvous opened (%s)", p.Desc)
+					return
+				}
+				break
+			}
 			cancel()
 			r = <-done
 		case r = <-done:
@@ -253,6 +286,8 @@ type c04RoundsParams struct {
 	Perturb bool `json:"perturb"`
 	Filler  int  `json:"filler"` // low-rate ticks (1 request, instant body) between rounds
 	Hot     bool `json:"hot"`    // every round is preceded, back to back, by a tick of one request
+	// BigFiller: the filler ticks offer 2c, 3c+1 or 10c requests instead of one
+	BigFiller bool `json:"big_filler,omitempty"`
 }
 
 // c04Rounds drives a real TriggerPool directly: each round offers exactly c requests once (no
@@ -265,12 +300,15 @@ func c04Rounds(c *core.Case, o *core.Outcome) {
 	var mu sync.Mutex
 	open := make(chan struct{})
 	arrived := 0
-	var filler atomic.Bool
+	var filler, bail atomic.Bool
 	var fillerDone atomic.Int64
 	scenario := func(t *f1testing.T) f1testing.RunFn {
 		return func(t *f1testing.T) {
 			if filler.Load() {
 				fillerDone.Add(1)
+				return
+			}
+			if bail.Load() {
 				return
 			}
 			defer k.Enter(t)()
@@ -296,12 +334,17 @@ func c04Rounds(c *core.Case, o *core.Outcome) {
 	pool := env.Manager.NewTriggerPool(p.C)
 	wctx := pool.Start(ctx)
 	r := c.Rng("rounds")
-	desc := fmt.Sprintf("c=%d perturb=%v filler=%d hot=%v procs=%d", p.C, p.Perturb, p.Filler, p.Hot, c.Procs)
+	desc := fmt.Sprintf("c=%d perturb=%v filler=%d bigFiller=%v hot=%v procs=%d", p.C, p.Perturb, p.Filler, p.BigFiller, p.Hot, c.Procs)
 	for round := 1; round <= p.Rounds; round++ {
 		want := k.Ended.Load() + int64(p.C)
 		if p.Filler > 0 {
 			filler.Store(true)
 			for f := 0; f < p.Filler; f++ {
+				if p.BigFiller {
+					pool.Trigger(wctx, pick(r, 2*p.C, 3*p.C+1, 10*p.C))
+					spin(time.Duration(r.IntN(200)) * time.Microsecond)
+					continue
+				}
 				pool.Trigger(wctx, 1)
 				spin(time.Duration(r.IntN(20)) * time.Microsecond)
 			}
@@ -319,14 +362,18 @@ func c04Rounds(c *core.Case, o *core.Outcome) {
 		pool.Trigger(wctx, p.C)
 		if !waitUntil(10*time.Second, func() bool { return k.Ended.Load() >= want }) {
 			inflight := k.Inflight.Load()
-			// release the stuck bodies so that the pool can stop
+			// release the stuck bodies so that the pool can stop; later bodies pass straight through
+			bail.Store(true)
 			mu.Lock()
 			close(open)
 			open = make(chan struct{})
 			arrived = 0
 			mu.Unlock()
 			cancel()
-			<-env.Manager.WaitForCompletion()
+			select {
+			case <-env.Manager.WaitForCompletion():
+			case <-time.After(10 * time.Second):
+			}
 			o.Violate("lost-wakeup:c="+fmt.Sprint(p.C), "round %d: %d requests were offered to %d idle workers and no further tick followed, but after 10 s only %d iterations were executing (a worker is asleep although work is pending) (%s)", round, p.C, p.C, inflight, desc)
 			return
 		}
@@ -353,7 +400,7 @@ func c04Rounds(c *core.Case, o *core.Outcome) {
 	for site, n := range hc.ReachedCounts() {
 		o.AddObs("hook:"+site, n)
 	}
-	o.Sig("rounds:c=%d:perturb=%v:filler=%v:hot=%v:procs=%d", p.C, p.Perturb, p.Filler > 0, p.Hot, c.Procs)
+	o.Sig("rounds:c=%d:perturb=%v:filler=%v:big=%v:hot=%v:procs=%d", p.C, p.Perturb, p.Filler > 0, p.BigFiller, p.Hot, c.Procs)
 	o.Sample = map[string]any{"case": desc, "rounds": p.Rounds, "iterations": k.Started.Load(), "hooks_reached": hc.ReachedCounts()}
 }
 
